@@ -46,7 +46,7 @@ add("C03", "c_updates",
     [T("TestC03", 6000, 50000, env=BUBBLE)],
     pre=["TestC03Regression"],
     level="fault_enumeration",
-    rule="C02's histories plus too-long difference answers; every StateStorage write and handler call is recorded in one totally ordered trace; crash points = every trace index for traces <= 12 events, otherwise 6 drawn indexes + 6 drawn indexes just after storage writes; each crash point restarts a second Manager from the storage snapshot at that index and recovers. non-trivial = a crash point directly after a handler call or difference answer (i.e. strictly between delivery and the next write, or inside a difference); distinct by steps+crash points",
+    rule="C02's histories plus too-long difference answers, channels unknown to the initial storage (the client learns them from the first pushed update, which travels without seq; entries before that update are not owed) and getChannelDifference latency 0/50 ms/2 s, so that a crash can fall between the client hearing of a channel and its worker's first answer; every StateStorage write and handler call is recorded in one totally ordered trace; crash points = every trace index for traces <= 12 events, otherwise 6 drawn indexes + 6 drawn indexes just after storage writes, always the quiescent point after an unknown channel was introduced; each crash point restarts a second Manager from the storage snapshot at that index and recovers. non-trivial = a crash point directly after a handler call or difference answer (i.e. strictly between delivery and the next write, or inside a difference); distinct by steps+crash points",
     technique="crash-point enumeration over generated histories (rapid + synctest), trace invariant + restart-and-recover oracle",
     text="Oracle 1: after each write the saved pts/qts/channel pts covers only entries already delivered or reported too long by callback. Oracle 2: delivered(run1 up to crash) U delivered(run2) covers the log minus reported ranges. Crash points are sampled for long traces, complete for short ones.",
     note="Crash model: the process stops between two recorded events; storage writes are atomic (the StateStorage contract).",
@@ -80,7 +80,7 @@ add("C26", "c_rpc",
     assumptions=["send returns when its context ends or the connection is closed"])
 
 
-POOL_RULE = "owned schedules over the real pool.DC in a synctest bubble with harness-controlled fake connections: pool max in {1,1,2,3,unlimited}, 1..5 callers; drawn actions start/cancel caller, make connection ready, kill connection, finish an invoke with ok / retryable dead-connection error (only on a dead connection) / non-retryable error, close DC, release a goroutine parked at a pool scheduling point (dead-entry, release-entry, acquire-created, acquire-wait, acquire-stuck, acquire-giveup; each enabled with p=1/3); the in-mutex point transfer-send cancels all waiting callers on a pre-drawn n-th hand-over and yields instead of parking. "
+POOL_RULE = "owned schedules over the real pool.DC in a synctest bubble with harness-controlled fake connections: pool max in {1,1,2,3,unlimited}, 1..5 callers; drawn actions start/cancel caller, make connection ready, kill connection, finish an invoke with ok / retryable dead-connection error (only on a dead connection) / non-retryable error, close DC, release a goroutine parked at a pool scheduling point (dead-entry, release-entry, acquire-created, acquire-wait, acquire-stuck, acquire-giveup; each enabled with p=1/3); the in-mutex point transfer-send cancels all waiting callers on a pre-drawn n-th hand-over, and/or lets every goroutine stopped at dead-entry go, and yields instead of parking; 1 case in 10 starts from a directly constructed prefix (two live connections at the limit, one dies in use, its death reported twice and stopped at dead-entry, a third caller waiting) and continues with drawn actions; at the end a capacity probe (max fresh callers must all be served) and a limit probe (one caller more: live connections stay within the limit). "
 add("C27", "c_pool",
     [T("TestC27", 40000, 250000, env=BUBBLE)],
     pre=["TestC27Regression"],
